@@ -151,9 +151,18 @@ package fsm
 //@   ensures c.batch == old(c.batch) && c.db == old(c.db)
 //@   modifies c.index, c.leaderIndex
 
+// the command object a wrapper wraps (definitional, by wrapper type)
+//@ uninterp func cmdPtrOf(c Iface) Ref
+//@ axiom forall x Iface :: typeIs(x, commandPut) ==> cmdPtrOf(x) == asType(x, commandPut).Command
+//@ axiom forall x Iface :: typeIs(x, commandDelete) ==> cmdPtrOf(x) == asType(x, commandDelete).Command
+//@ axiom forall x Iface :: typeIs(x, commandPutBatch) ==> cmdPtrOf(x) == asType(x, commandPutBatch).Command
+//@ axiom forall x Iface :: typeIs(x, commandDeleteBatch) ==> cmdPtrOf(x) == asType(x, commandDeleteBatch).Command
+//@ axiom forall x Iface :: typeIs(x, commandTxn) ==> cmdPtrOf(x) == asType(x, commandTxn).Command
+//@ axiom forall x Iface :: typeIs(x, commandSequence) ==> cmdPtrOf(x) == asType(x, commandSequence).Command
 //@ func wrapCommand
 //@   requires cmd != nil && 0 <= cmd.Type && cmd.Type <= 6
 //@   ensures result != nil && typeIs(result, commandPut) == (cmd.Type == 0) && typeIs(result, commandDelete) == (cmd.Type == 1) && typeIs(result, commandTxn) == (cmd.Type == 5)
+//@   ensures cmd.Type != 2 ==> cmdPtrOf(result) == cmd      // the wrapper wraps exactly this command object (DUMMY carries none)
 //@   modifies nothing
 
 // ---------------------------------------------------------------- FSM.Update (C01, C03, C10, C11)
@@ -171,7 +180,13 @@ package fsm
 //@   ensures err == nil ==> ctx.batch != nil && ctx.batch.bdb == ctx.db && ctx.batch != ctx.db
 //@   ensures ctx.index == old(ctx.index) && ctx.leaderIndex == old(ctx.leaderIndex) && ctx.db == old(ctx.db)
 //@   ensures ctx.batch == old(ctx.batch) || fresh(ctx.batch)
-//@   modifies ctx.batch, ctx.batch.vP, ctx.batch.vV
+// ghost call log of the context: how many commands were handled through it, and which one last
+//@   ensures err == nil ==> ctx.nhandled == old(ctx.nhandled) + 1 && ctx.lastHandled == c
+//@   ensures err != nil ==> ctx.nhandled >= old(ctx.nhandled)
+//@   modifies ctx.batch, ctx.batch.vP, ctx.batch.vV, ctx.nhandled, ctx.lastHandled
+
+//@ ghostfield any.nhandled Int = 0
+//@ ghostfield any.lastHandled Iface
 
 // the listener installed by the table manager: ghost call log on the function value
 //@ ghostfield any.calls Int
@@ -809,3 +824,22 @@ package fsm
 //@   loop 0 invariant forall d string :: c.fsm.fs.dCur[d] == old(c.fsm.fs.dCur[d]) && c.fsm.fs.vCur[d] == old(c.fsm.fs.vCur[d])
 //@   loop 0 invariant forall q string :: old(c.fsm.fs.dHas[q]) ==> c.fsm.fs.dHas[q]
 //@   loop 0 invariant forall q string :: old(c.fsm.fs.vHas[q]) ==> c.fsm.fs.vHas[q]
+
+// ---------------------------------------------------------------- SEQUENCE commands (C05)
+
+// A SEQUENCE (what the replication worker proposes) hands every nested command to its handler
+// exactly once and in order - two-state step clause: one more command handled, namely the wrapped
+// i-th element - and stops at the first failure; on success as many commands were handled as the
+// sequence holds and the result carries the entry's own revision.
+//@ func (commandSequence).handle
+//@   results ur, res, err
+//@   requires c.Command != nil && ctx != nil && ctx.batch != nil && ctx.db != nil && ctx.batch.bdb == ctx.db && ctx.batch != ctx.db
+//@   requires forall j int :: 0 <= j && j < len(c.Command.Sequence) ==> c.Command.Sequence[j] != nil && 0 <= c.Command.Sequence[j].Type && c.Command.Sequence[j].Type <= 6
+//@   ensures [C05.seq.all] err == nil ==> ctx.nhandled == old(ctx.nhandled) + len(c.Command.Sequence)
+//@   ensures [C10.handle.rev] err == nil ==> res != nil && res.Revision == ctx.index && fresh(res)
+//@   ensures ctx.index == old(ctx.index) && ctx.leaderIndex == old(ctx.leaderIndex) && ctx.db == old(ctx.db)
+//@   modifies ctx.batch, family(G_any_vP), family(G_any_vV), ctx.nhandled, ctx.lastHandled
+//@   loop 0 invariant res != nil && fresh(res) && res.Revision == ctx.index && (isNilSlice(res.Responses) || fresh(res.Responses)) && -1 <= rangeindex && rangeindex < len(c.Command.Sequence)
+//@   loop 0 invariant ctx.batch != nil && ctx.db != nil && ctx.batch.bdb == ctx.db && ctx.batch != ctx.db && ctx.index == old(ctx.index) && ctx.leaderIndex == old(ctx.leaderIndex) && ctx.db == old(ctx.db)
+//@   loop 0 invariant ctx.nhandled == old(ctx.nhandled) + rangeindex + 1
+//@   loop 0 step [C05.seq.step] ctx.nhandled == prev(ctx.nhandled) + 1 && (c.Command.Sequence[rangeindex+1].Type != 2 ==> cmdPtrOf(ctx.lastHandled) == c.Command.Sequence[rangeindex+1])
